@@ -121,18 +121,21 @@ Theorem C20_preset_table : forall p q, options_for_preset p q = doc_preset p q.
 Proof. exact preset_table. Qed.
 Print Assumptions C20_preset_table.
 
-(** The rate control (lossy.initPassStats) resolves QMax a third time.  Every explicit positive
-    value is honoured; for the explicit value 0 the statement is decided by the regenerated
-    source rule: honoured, or (pinned tree, `qmax <= 0`) replaced by 100, which refutes the
-    documented contract [ratectl_honours_explicit_qmax] (known finding explicit-value-ignored:QMax). *)
+(** The rate control (lossy.initPassStats) resolves QMax a third time; every explicit value in
+    0..100 is honoured. *)
 Theorem C20_ratectl_qmax_positive_honoured_partial : forall v, 0 < v <= 100 -> ratectl_qmax v = v.
 Proof. exact ratectl_qmax_positive_honoured. Qed.
 Print Assumptions C20_ratectl_qmax_positive_honoured_partial.
 
-Theorem C20_ratectl_qmax_zero_honoured_or_refuted :
-  ratectl_qmax 0 = 0 \/ (ratectl_qmax 0 = 100 /\ ~ (forall v, 0 <= v <= 100 -> ratectl_qmax v = v)).
-Proof. exact ratectl_qmax_zero. Qed.
-Print Assumptions C20_ratectl_qmax_zero_honoured_or_refuted.
+(** Full statement (holds since 17c8929; breaks if the source rule changes back to [<= 0]). *)
+Theorem C20_ratectl_honours_explicit_qmax : forall v, 0 <= v <= 100 -> ratectl_qmax v = v.
+Proof. exact ratectl_honours_explicit_qmax_holds. Qed.
+Print Assumptions C20_ratectl_honours_explicit_qmax.
+
+(** The historic defect, about a pinned definition (no run selects it). *)
+Theorem C20_pinned_ratectl_le_rule_refuted : exists v, 0 <= v <= 100 /\ pinned_ratectl_qmax_le_rule v <> v.
+Proof. exact pinned_ratectl_le_rule_refuted. Qed.
+Print Assumptions C20_pinned_ratectl_le_rule_refuted.
 
 (** QMin / QMax are documented as the minimum / maximum quantizer value.  On the faithful model
     the quality handed to the lossy codec is NOT always inside [QMin, QMax]: without TargetSize /
@@ -144,18 +147,20 @@ Theorem C20_quality_in_range_refuted :
 Proof. exact quality_in_range_refuted. Qed.
 Print Assumptions C20_quality_in_range_refuted.
 
-(** With a target, the statement is decided by the regenerated propagation block: either it
-    clamps Quality into [QMin, QMax] (then proved for every option value), or it does not (pinned
-    tree: the clamp lives only inside the rate-control loop) and the statement is refuted by
-    Quality 90, QMin = QMax = 30, TargetSize 600.  Known finding qrange-inexact:{size,psnr}. *)
-Theorem C20_quality_in_range_when_target_or_refuted :
-  (forall oo w h ha c a e s m, effective oo w h ha = Ok (ELossy c a e s m) ->
-     (cTargetSize c >? 0) || fl_gt (cTargetPSNR c) 0 = true -> cQMin c <= cQuality c <= cQMax c)
-  \/ (F.quality_clamp_rule = [] /\
-      ~ (forall oo w h ha c a e s m, effective oo w h ha = Ok (ELossy c a e s m) ->
-           (cTargetSize c >? 0) || fl_gt (cTargetPSNR c) 0 = true -> cQMin c <= cQuality c <= cQMax c)).
-Proof. exact quality_in_range_when_target_or_refuted. Qed.
-Print Assumptions C20_quality_in_range_when_target_or_refuted.
+(** With a target (TargetSize or TargetPSNR) the quality handed to the codec lies in [QMin, QMax]
+    for every option value (holds since d401cf2; breaks if the clamps leave the propagation block). *)
+Theorem C20_quality_in_range_when_target : forall oo w h ha c a e s m,
+  effective oo w h ha = Ok (ELossy c a e s m) ->
+  (cTargetSize c >? 0) || fl_gt (cTargetPSNR c) 0 = true -> cQMin c <= cQuality c <= cQMax c.
+Proof. exact quality_in_range_when_target_holds. Qed.
+Print Assumptions C20_quality_in_range_when_target.
+
+(** The historic defect, about the pinned unclamped configuration. *)
+Theorem C20_pinned_unclamped_config_out_of_range :
+  let c := lossy_config_pre (ex_q90_range30 600) 90 false in
+  cTargetSize c = 600 /\ cQMax c = 30 /\ cQuality c = 90.
+Proof. exact pinned_unclamped_config_out_of_range. Qed.
+Print Assumptions C20_pinned_unclamped_config_out_of_range.
 
 (** ---- every field, from the regenerated tables ---- *)
 
@@ -248,23 +253,27 @@ Theorem C20_anim_lossy_frame_config_total : forall q ha c a e s m,
 Proof. exact anim_lossy_frame_config_total. Qed.
 Print Assumptions C20_anim_lossy_frame_config_total.
 
-(** Lossless: decided by the regenerated source: the VP8L configuration is in range for EVERY int
-    quality (when encodeFrameForAnimation clamps), or (pinned tree) quality 101 reaches the VP8L
-    encoder unclamped.  Known finding anim-hang-lossless-quality-out-of-range. *)
-Theorem C20_anim_lossless_frame_total_or_refuted :
-  (forall q l m, anim_frame_config true q false = ELossless l m -> lossless_pre l) \/
-  (F.anim_frame_quality_clamp = [] /\
-   ~ (forall q l m, anim_frame_config true q false = ELossless l m -> lossless_pre l)).
-Proof. exact anim_lossless_frame_total_or_refuted. Qed.
-Print Assumptions C20_anim_lossless_frame_total_or_refuted.
+(** Lossless: the VP8L configuration is inside the codec's range for EVERY int quality (holds
+    since 09c6c50; breaks if encodeFrameForAnimation stops clamping). *)
+Theorem C20_anim_lossless_frame_total : forall q l m,
+  anim_frame_config true q false = ELossless l m -> lossless_pre l.
+Proof. exact anim_lossless_frame_total_holds. Qed.
+Print Assumptions C20_anim_lossless_frame_total.
+
+(** The historic defect, about a pinned definition (no run selects it). *)
+Theorem C20_pinned_anim_lossless_unclamped_refuted : exists q, ~ lossless_pre (pinned_anim_lossless_config_unclamped q).
+Proof. exact pinned_anim_lossless_unclamped_refuted. Qed.
+Print Assumptions C20_pinned_anim_lossless_unclamped_refuted.
+
 
 Theorem C20_anim_lossless_frame_config_in_range_partial : forall q l m, 0 <= q <= 100 ->
   anim_frame_config true q false = ELossless l m -> lossless_pre l.
 Proof. exact anim_lossless_frame_config_in_range. Qed.
 Print Assumptions C20_anim_lossless_frame_config_in_range_partial.
 
-(** Kmin is documented but never read after being sanitized (regenerated read counts). *)
-Theorem C20_anim_every_field_read_or_kmin_unused :
-  anim_unused_fields = [] \/ anim_unused_fields = [F.afld_Kmin].
-Proof. exact anim_every_field_read_or_kmin_unused. Qed.
-Print Assumptions C20_anim_every_field_read_or_kmin_unused.
+(** Kmin is sanitized but is the one option field the encoder never reads (regenerated read
+    counts).  The documentation only constrains frames closer than Kmin ("always sub-frames");
+    see CFG notes: no keyframe below Kmin could be produced on the real encoder. *)
+Theorem C20_anim_kmin_is_the_only_unused_field : anim_unused_fields = [F.afld_Kmin].
+Proof. exact anim_kmin_is_the_only_unused_field. Qed.
+Print Assumptions C20_anim_kmin_is_the_only_unused_field.
